@@ -572,27 +572,27 @@ def conformance(facts, spec, only=None):
     spec_inl = {}
     for prod in spec.MAP.values():
         spec_inl[prod] = expand_spec(spec.P, spec.P[prod], spec.ATOMS, (prod,) if prod not in spec.ATOMS else ())
-    pairs_inl, pairs_mod = [], []
+    # Modular comparison: the code of a production with every *other* mapped production replaced by the reference language
+    # of that production, against the reference production.  By induction over the (atom-cut) call structure all languages
+    # are equal iff no production differs modularly; a production that differs is a root cause, one that only calls a
+    # differing production is `derived`.  (Comparing fully inlined code languages as well adds nothing when no callee
+    # differs, and when one does it can blow the automata up - a mutated leaf is inlined into every declaration.)
+    pairs_mod = []
     for prod in prods:
         fid = fn_of[prod]["id"]
         try:
-            c_inl = expand(ex, code_terms[prod], atom_fids, (fid,) if fid not in atom_fids else ())
             subst = {k: spec_inl[v] for k, v in mapped_fids.items() if k != fid and k not in atom_fids}
             c_mod = expand(ex, code_terms[prod], atom_fids, (fid,) if fid not in atom_fids else (), subst)
         except Unknown as u:
             raise BrokenCheck("grammar expansion failed for %s: %s" % (prod, u))
-        s_inl = spec_inl[prod]
-        pairs_inl.append((prod, c_inl, s_inl))
-        pairs_mod.append((prod, c_mod, s_inl))
-    cmp_inl = Comparison(pairs_inl).run()
+        pairs_mod.append((prod, c_mod, spec_inl[prod]))
     cmp_mod = Comparison(pairs_mod).run()
-    differs = {r["name"] for r in cmp_inl if r["code_only"] is not None or r["spec_only"] is not None}
+    differs = {r["name"] for r in cmp_mod if r["code_only"] is not None or r["spec_only"] is not None}
     rows = []
-    for ri, rm in zip(cmp_inl, cmp_mod):
-        prod = ri["name"]
+    for rm in cmp_mod:
+        prod = rm["name"]
         f = fn_of[prod]
         calls = sorted(code_refs(prod))
-        # transitive closure over calls for "explained by"
         seen, work = set(), list(calls)
         while work:
             x = work.pop()
@@ -602,18 +602,17 @@ def conformance(facts, spec, only=None):
             if x in code_terms:
                 work.extend(code_refs(x))
         explained = sorted(differs & seen)
-        mod_diff = rm["code_only"] is not None or rm["spec_only"] is not None
-        if prod not in differs:
-            verdict = "equal"
-        elif mod_diff or not explained:
+        if prod in differs:
             verdict = "root"
-        else:
+        elif explained:
             verdict = "derived"
+        else:
+            verdict = "equal"
+        d = {"code_only": rm["code_only"], "spec_only": rm["spec_only"], "code_states": rm["code_states"], "spec_states": rm["spec_states"]}
         rows.append({"production": prod, "fn": f["path"], "file": f["file"], "line": f["line"],
-                     "inlined": {"code_only": ri["code_only"], "spec_only": ri["spec_only"],
-                                 "code_states": ri["code_states"], "spec_states": ri["spec_states"]},
+                     "inlined": d,
                      "modular": {"code_only": rm["code_only"], "spec_only": rm["spec_only"], "signature": rm["signature"]},
-                     "signature": ri["signature"],
+                     "signature": rm["signature"],
                      "calls": calls, "explained_by": explained, "verdict": verdict})
     return rows, ex
 
